@@ -37,6 +37,24 @@ def classify : String → Option Step
   | "os.Remove" => some .unlinkTmp
   | _ => none
 
+/-- Calls that cannot touch the file system: everything from the pure helper packages, plus the
+    few local/method calls of the current `Save` that only compute names, lengths or classify
+    errors. Closed world: a call that is neither a step (`classify`) nor harmless is *unknown* —
+    the model does not know what it does to the directory (e.g. a helper that opens the final
+    name for writing), and the step-order theorems must not silently ignore it. -/
+def hasPrefix (p c : String) : Bool := c.toList.take p.toList.length == p.toList
+
+def harmless (c : String) : Bool :=
+  hasPrefix "errors." c || hasPrefix "debug." c || hasPrefix "filepath." c || hasPrefix "fmt." c ||
+  hasPrefix "strings." c || hasPrefix "backoff." c ||
+  c ∈ ["func", "b.Filename", "b.IsNotExist", "os.IsPermission", "f.Name", "rd.Length", "isMacENOTTY"]
+
+def knownCall (c : String) : Bool := (classify c).isSome || harmless c
+
+/-- the step list covers the whole function: no unknown calls, and the only way a name gets into
+    the directory is `tempFile` (a temporary name) or `os.Rename` -/
+def allCallsKnown (calls : List String) : Bool := calls.all knownCall
+
 /-- the part of a call list after the last occurrence of `x` (whole list if absent) -/
 def afterLast (x : String) : List String → List String
   | [] => []
